@@ -12,6 +12,7 @@ mod c09;
 mod c10;
 mod c13;
 mod c17;
+mod c18;
 
 use rng::Rng;
 use std::io::Write;
@@ -31,6 +32,7 @@ fn prop(id: &str) -> Prop {
         "C08" => Prop { gen: c08::gen, run: c08::run },
         "C17" => Prop { gen: c17::gen, run: c17::run },
         "C10" => Prop { gen: c10::gen, run: c10::run },
+        "C18" => Prop { gen: c18::gen, run: c18::run },
         "C13" => Prop { gen: c13::gen, run: c13::run },
         _ => { eprintln!("unknown property {}", id); std::process::exit(2) }
     }
